@@ -252,6 +252,27 @@ theorem Refines.after_abs {σ : Type} {ops : Ops σ} {abs : σ → List Event} {
     · simp
     · simp [List.drop_tail] <;> rfl
 
+/-- every answer of a script (peeks included) is nul or an event of the refined list -/
+theorem Refines.answers_mem {σ : Type} {ops : Ops σ} {abs : σ → List Event} {I : σ → Prop}
+    (R : Refines ops abs I) : ∀ (sc : List Bool) (s : σ), I s →
+      ∀ e ∈ answers ops s sc, e.isNul = false → e ∈ abs s := by
+  intro sc
+  induction sc with
+  | nil => intro s _ e he; cases he
+  | cons b sc ih =>
+    intro s hs e he hn
+    simp only [answers] at he
+    rcases List.mem_cons.mp he with h | h
+    · rw [R.call_val s hs b] at h
+      cases hl : abs s with
+      | nil => rw [h, hl] at hn; simp [Event.isNul, Event.nul] at hn
+      | cons a t => rw [hl] at h; rw [h]; exact List.mem_cons_self
+    · have := ih _ (R.call_inv s hs b) e h hn
+      rw [R.call_abs s hs b] at this
+      cases b
+      · exact this
+      · exact List.mem_of_mem_tail this
+
 theorem deliver_of_le (l : List Event) : ∀ n, n ≤ l.length → deliver l n = l.take n := by
   induction l with
   | nil => intro n hn; cases n with
